@@ -84,122 +84,7 @@ theorem file_roundtrip_cnt (recs : List CntRec) (h : ∀ r ∈ recs, r.WF) (fuel
       simp only []
       rw [ih (fun x hx => h x (by simp [hx])) f (by simp at hf; omega)]
 
-/-! ### the six updaters -/
-
-inductive Updater
-  | dynAdded (r : DynRec)
-  | dynDeleted (name : Bytes)
-  | obsAdded (r : ObsRec)
-  | obsDeleted (key : Nat)
-  | cntTrack (r : CntRec)
-  | cntDeleted (name : Bytes)
-
-def Updater.file : Updater → FileId
-  | .dynAdded _ | .dynDeleted _ => .dyn
-  | .obsAdded _ | .obsDeleted _ => .obs
-  | .cntTrack _ | .cntDeleted _ => .cnt
-
-/-- the stdio / rename calls the updater makes when it finds the file system `fs` -/
-def Updater.ops (fs : FS) : Updater → List Op
-  | .dynAdded r => Persist.dynAdded fs r
-  | .dynDeleted n => Persist.dynDeleted fs n
-  | .obsAdded r => Persist.obsAdded fs r
-  | .obsDeleted k => Persist.obsDeleted fs k
-  | .cntTrack r => Persist.cntTrack fs r
-  | .cntDeleted n => Persist.cntDeleted fs n
-
-theorem dynAdded_frame (fs : FS) (r : DynRec) :
-    Persist.dynAdded fs r = frame .dyn ((if exists? fs (main .dyn) then
-      dynCopy r.name ((content fs (main .dyn)).length + 1) (content fs (main .dyn)) else []) ++
-      writesTo (tmp .dyn) (dynWrites r)) (exists? fs (main .dyn)) := by
-  simp [Persist.dynAdded, frame, List.append_assoc]
-
-theorem obsAdded_frame (fs : FS) (r : ObsRec) :
-    Persist.obsAdded fs r = frame .obs ((if exists? fs (main .obs) then
-      obsCopy r.key ((content fs (main .obs)).length + 1) (content fs (main .obs)) else []) ++
-      writesTo (tmp .obs) (obsWrites r)) (exists? fs (main .obs)) := by
-  simp [Persist.obsAdded, frame, List.append_assoc]
-
-theorem cntTrack_frame (fs : FS) (r : CntRec) :
-    Persist.cntTrack fs r = frame .cnt ((if exists? fs (main .cnt) then
-      cntCopy r.name ((content fs (main .cnt)).length + 1) (content fs (main .cnt)) else []) ++
-      [fwrite (tmp .cnt) (encCnt r)]) (exists? fs (main .cnt)) := by
-  simp [Persist.cntTrack, frame, List.append_assoc]
-
-theorem dynDeleted_frame (fs : FS) (n : Bytes) (h : exists? fs (main .dyn) = true) :
-    Persist.dynDeleted fs n = frame .dyn (dynCopy n ((content fs (main .dyn)).length + 1) (content fs (main .dyn))) true := by
-  simp [Persist.dynDeleted, frame, h, List.append_assoc]
-
-theorem obsDeleted_frame (fs : FS) (k : Nat) (h : exists? fs (main .obs) = true) :
-    Persist.obsDeleted fs k = frame .obs (obsCopy k ((content fs (main .obs)).length + 1) (content fs (main .obs))) true := by
-  simp [Persist.obsDeleted, frame, h, List.append_assoc]
-
-theorem cntDeleted_frame (fs : FS) (n : Bytes) (h : exists? fs (main .cnt) = true) :
-    Persist.cntDeleted fs n = frame .cnt (cntCopy n ((content fs (main .cnt)).length + 1) (content fs (main .cnt))) true := by
-  simp [Persist.cntDeleted, frame, h, List.append_assoc]
-
-theorem body_added_dyn (fs : FS) (r : DynRec) : ∀ op ∈ (if exists? fs (main .dyn) then
-      dynCopy r.name ((content fs (main .dyn)).length + 1) (content fs (main .dyn)) else []) ++
-      writesTo (tmp .dyn) (dynWrites r), Body .dyn op := by
-  intro op h
-  simp only [List.mem_append] at h
-  rcases h with h | h
-  · split at h
-    · exact dynCopy_body _ _ _ op h
-    · simp at h
-  · exact writesTo_body _ _ op h
-
-theorem body_added_obs (fs : FS) (r : ObsRec) : ∀ op ∈ (if exists? fs (main .obs) then
-      obsCopy r.key ((content fs (main .obs)).length + 1) (content fs (main .obs)) else []) ++
-      writesTo (tmp .obs) (obsWrites r), Body .obs op := by
-  intro op h
-  simp only [List.mem_append] at h
-  rcases h with h | h
-  · split at h
-    · exact obsCopy_body _ _ _ op h
-    · simp at h
-  · exact writesTo_body _ _ op h
-
-theorem body_track_cnt (fs : FS) (r : CntRec) : ∀ op ∈ (if exists? fs (main .cnt) then
-      cntCopy r.name ((content fs (main .cnt)).length + 1) (content fs (main .cnt)) else []) ++
-      [fwrite (tmp .cnt) (encCnt r)], Body .cnt op := by
-  intro op h
-  simp only [List.mem_append] at h
-  rcases h with h | h
-  · split at h
-    · exact cntCopy_body _ _ _ op h
-    · simp at h
-  · simp at h; subst h; rfl
-
-theorem single_open_shape (F : FileId) : Shape F [fopen (main F) .r] :=
-  ⟨[fopen (main F) .r], by intro op h; simp at h; subst h; trivial, Or.inl rfl⟩
-
-theorem updater_shape (u : Updater) (fs : FS) : Shape u.file (u.ops fs) := by
-  cases u with
-  | dynAdded r =>
-    simp only [Updater.ops, Updater.file]; rw [dynAdded_frame]
-    exact frame_shape _ _ _ (body_of_safe_copy (body_added_dyn fs r))
-  | obsAdded r =>
-    simp only [Updater.ops, Updater.file]; rw [obsAdded_frame]
-    exact frame_shape _ _ _ (body_of_safe_copy (body_added_obs fs r))
-  | cntTrack r =>
-    simp only [Updater.ops, Updater.file]; rw [cntTrack_frame]
-    exact frame_shape _ _ _ (body_of_safe_copy (body_track_cnt fs r))
-  | dynDeleted n =>
-    simp only [Updater.ops, Updater.file]
-    cases h : exists? fs (main .dyn) with
-    | true => rw [dynDeleted_frame fs n h]; exact frame_shape _ _ _ (body_of_safe_copy (dynCopy_body _ _ _))
-    | false => simp only [Persist.dynDeleted, h]; exact single_open_shape _
-  | obsDeleted k =>
-    simp only [Updater.ops, Updater.file]
-    cases h : exists? fs (main .obs) with
-    | true => rw [obsDeleted_frame fs k h]; exact frame_shape _ _ _ (body_of_safe_copy (obsCopy_body _ _ _))
-    | false => simp only [Persist.obsDeleted, h]; exact single_open_shape _
-  | cntDeleted n =>
-    simp only [Updater.ops, Updater.file]
-    cases h : exists? fs (main .cnt) with
-    | true => rw [cntDeleted_frame fs n h]; exact frame_shape _ _ _ (body_of_safe_copy (cntCopy_body _ _ _))
-    | false => simp only [Persist.cntDeleted, h]; exact single_open_shape _
+/-! ### the six updaters (`Updater`, `Updater.ops`, `updater_shape`: CoapVerif/Lemmas/PersistFs.lean) -/
 
 /-- **Never torn.**  For every updater, all arguments, every file system in which no save file is open for writing
 (the state between two updates), every crash point `k` in the updater's op sequence and every amount `keep` of
@@ -295,6 +180,90 @@ theorem update_functional_cnt_deleted (fs : FS) (hq : NoMainWr fs) (name : Bytes
     have hd : fs.disk (main .cnt) = none := by
       simpa only [exists?, Option.isSome_eq_false_iff, Option.isNone_iff_eq_none] using h
     simp [Persist.cntDeleted, h, exec, step, hd]
+
+/-! ### the same on records: a file made of well-formed records stays one, and its record list changes as the
+list-level model (`Files.dynAdded` … in Model/PersistList.lean) says -/
+
+theorem length_le_flatMap {α} (enc : α → Bytes) (h : ∀ r, 0 < (enc r).length) (recs : List α) :
+    recs.length ≤ (recs.flatMap enc).length := by
+  induction recs with
+  | nil => simp
+  | cons r rs ih => simp only [List.flatMap_cons, List.length_cons, List.length_append]; have := h r; omega
+
+theorem encDyn_pos (r : DynRec) : 0 < (encDyn r).length := by simp [encDyn, le_length, szProto]; omega
+theorem encObs_pos (r : ObsRec) : 0 < (encObs r).length := by
+  simp [encObs, obsWrites, le_length, szKey]; omega
+theorem encCnt_pos (r : CntRec) : 0 < (encCnt r).length := by simp [encCnt]; omega
+
+/-- a dyn file that is the concatenation of well-formed records decodes to them -/
+theorem dynFile_of_records (fs : FS) (recs : List DynRec) (h : fs.disk (main .dyn) = some (recs.flatMap encDyn))
+    (hw : ∀ r ∈ recs, r.WF) : dynFile fs = recs := by
+  simp only [dynFile, content, h, Option.getD_some]
+  exact file_roundtrip_dyn recs hw _ (by have := length_le_flatMap encDyn encDyn_pos recs; omega)
+
+theorem obsFile_of_records (fs : FS) (recs : List ObsRec) (h : fs.disk (main .obs) = some (recs.flatMap encObs))
+    (hw : ∀ r ∈ recs, r.WF) : obsFile fs = recs := by
+  simp only [obsFile, content, h, Option.getD_some]
+  exact file_roundtrip_obs recs hw _ (by have := length_le_flatMap encObs encObs_pos recs; omega)
+
+theorem cntFile_of_records (fs : FS) (recs : List CntRec) (h : fs.disk (main .cnt) = some (recs.flatMap encCnt))
+    (hw : ∀ r ∈ recs, r.WF) : cntFile fs = recs := by
+  simp only [cntFile, content, h, Option.getD_some]
+  exact file_roundtrip_cnt recs hw _ (by have := length_le_flatMap encCnt encCnt_pos recs; omega)
+
+theorem update_records_dyn_added (fs : FS) (hq : NoMainWr fs) (recs : List DynRec)
+    (h : fs.disk (main .dyn) = some (recs.flatMap encDyn)) (hw : ∀ x ∈ recs, x.WF) (r : DynRec) (hr : r.WF) :
+    dynFile (exec fs (Persist.dynAdded fs r)) = recs.filter (·.name ≠ r.name) ++ [r] := by
+  apply dynFile_of_records
+  · rw [update_functional_dyn_added fs hq r, dynFile_of_records fs recs h hw]; simp
+  · intro x hx
+    simp only [List.mem_append, List.mem_filter, List.mem_singleton] at hx
+    rcases hx with hx | hx
+    · exact hw x hx.1
+    · exact hx ▸ hr
+
+theorem update_records_dyn_deleted (fs : FS) (hq : NoMainWr fs) (recs : List DynRec)
+    (h : fs.disk (main .dyn) = some (recs.flatMap encDyn)) (hw : ∀ x ∈ recs, x.WF) (name : Bytes) :
+    dynFile (exec fs (Persist.dynDeleted fs name)) = recs.filter (·.name ≠ name) := by
+  apply dynFile_of_records
+  · rw [update_functional_dyn_deleted fs hq name, dynFile_of_records fs recs h hw]; simp [exists?, h]
+  · intro x hx; exact hw x (List.mem_filter.1 hx).1
+
+theorem update_records_obs_added (fs : FS) (hq : NoMainWr fs) (recs : List ObsRec)
+    (h : fs.disk (main .obs) = some (recs.flatMap encObs)) (hw : ∀ x ∈ recs, x.WF) (r : ObsRec) (hr : r.WF) :
+    obsFile (exec fs (Persist.obsAdded fs r)) = recs.filter (·.key ≠ r.key) ++ [r] := by
+  apply obsFile_of_records
+  · rw [update_functional_obs_added fs hq r, obsFile_of_records fs recs h hw]; simp
+  · intro x hx
+    simp only [List.mem_append, List.mem_filter, List.mem_singleton] at hx
+    rcases hx with hx | hx
+    · exact hw x hx.1
+    · exact hx ▸ hr
+
+theorem update_records_obs_deleted (fs : FS) (hq : NoMainWr fs) (recs : List ObsRec)
+    (h : fs.disk (main .obs) = some (recs.flatMap encObs)) (hw : ∀ x ∈ recs, x.WF) (key : Nat) :
+    obsFile (exec fs (Persist.obsDeleted fs key)) = recs.filter (·.key ≠ key) := by
+  apply obsFile_of_records
+  · rw [update_functional_obs_deleted fs hq key, obsFile_of_records fs recs h hw]; simp [exists?, h]
+  · intro x hx; exact hw x (List.mem_filter.1 hx).1
+
+theorem update_records_cnt_track (fs : FS) (hq : NoMainWr fs) (recs : List CntRec)
+    (h : fs.disk (main .cnt) = some (recs.flatMap encCnt)) (hw : ∀ x ∈ recs, x.WF) (r : CntRec) (hr : r.WF) :
+    cntFile (exec fs (Persist.cntTrack fs r)) = recs.filter (·.name ≠ r.name) ++ [r] := by
+  apply cntFile_of_records
+  · rw [update_functional_cnt_track fs hq r, cntFile_of_records fs recs h hw]; simp
+  · intro x hx
+    simp only [List.mem_append, List.mem_filter, List.mem_singleton] at hx
+    rcases hx with hx | hx
+    · exact hw x hx.1
+    · exact hx ▸ hr
+
+theorem update_records_cnt_deleted (fs : FS) (hq : NoMainWr fs) (recs : List CntRec)
+    (h : fs.disk (main .cnt) = some (recs.flatMap encCnt)) (hw : ∀ x ∈ recs, x.WF) (name : Bytes) :
+    cntFile (exec fs (Persist.cntDeleted fs name)) = recs.filter (·.name ≠ name) := by
+  apply cntFile_of_records
+  · rw [update_functional_cnt_deleted fs hq name, cntFile_of_records fs recs h hw]; simp [exists?, h]
+  · intro x hx; exact hw x (List.mem_filter.1 hx).1
 
 /-- the state between two updates is re-established by every complete update -/
 theorem update_keeps_quiescent (u : Updater) (fs : FS) (hq : NoMainWr fs) : NoMainWr (exec fs (u.ops fs)) := by
